@@ -217,7 +217,31 @@ func runC19(p *load.Program, r *core.Report) {
 		if c, ok := bound.(*ssa.Call); ok && isRing(c, "Len") {
 			boundIsLen = true
 		}
+		// the counter starts at 0 and advances by one per worker tried
+		startsAtZero := false
+		if loopIf != nil {
+			if ph, ok := loopIf.Cond.(*ssa.BinOp).X.(*ssa.Phi); ok {
+				for _, e := range ph.Edges {
+					if c, okc := constInt(e); okc && c == 0 {
+						startsAtZero = true
+					}
+					if c, okc := constInt(e); okc && c != 0 {
+						startsAtZero = false
+						break
+					}
+				}
+				for _, e := range ph.Edges {
+					if b, okb := e.(*ssa.BinOp); okb {
+						if c, okc := constInt(b.Y); !(b.Op == token.ADD && b.X == ssa.Value(ph) && okc && c == 1) {
+							startsAtZero = false
+						}
+					}
+				}
+			}
+		}
 		switch {
+		case loopIf != nil && drop != nil && boundIsLen && !startsAtZero:
+			r.Bad(rule3, key, fn, p.Pos(loopIf.Pos()), inst, "the loop counter does not run 0, 1, 2, … up to the ring's length: fewer workers are tried than the ring holds and a message is dropped although a worker had room")
 		case loopIf == nil || drop == nil:
 			r.Unk(rule3, key, fn, p.Pos(fwd.Pos()), inst, "loop condition or drop accounting not found")
 		case !boundIsLen:
